@@ -2,5 +2,6 @@ import Audit.Tool
 import Uds.Props.C06
 import Uds.Props.C06Call
 import Uds.Props.CallUnify
+import Uds.Props.C06Hist
 #audit Uds.Props.C06
 #audit Uds.Props.CallUnify
